@@ -58,9 +58,11 @@ FDHistory(M, N, P, bN) == /\ ~job.active
 GridKinds == {"Grid", "Grid3Scales"}
 \* bM, bN: the bases the solver is configured with -- the deviation is handed to getDeltas in those bases and the moments must not
 \* depend on them (getDeltas converts to nodal values on every axis before it applies position-dependent weights)
-MomentCell(N, scale, mass, g, bM, bN) ==
+\* hist: the grid was constructed at this momentum scale ("fresh") or brought to it by changeMomentumFalloffScale ("rescaled")
+GridHist == {"fresh", "rescaled"}
+MomentCell(N, scale, mass, g, bM, bN, h) ==
     /\ ~job.active
-    /\ job' = [active |-> TRUE, kind |-> "moment", N |-> N, scale |-> scale, mass |-> mass, grid |-> g, bM |-> bM, bN |-> bN]
+    /\ job' = [active |-> TRUE, kind |-> "moment", N |-> N, scale |-> scale, mass |-> mass, grid |-> g, bM |-> bM, bN |-> bN, hist |-> h]
 Done == job.active /\ job' = [active |-> FALSE]
 
 Next == \/ \E s \in Sizes, bM \in Bases, bN \in Bases, d \in Derivs, P \in 1..MaxP, bg \in BgKinds :
@@ -68,7 +70,7 @@ Next == \/ \E s \in Sizes, bM \in Bases, bN \in Bases, d \in Derivs, P \in 1..Ma
         \/ \E s \in Sizes, P \in 1..MaxP, bg \in BgKinds : BasisCell(s[1], s[2], P, bg)
         \/ \E N \in NSizes, P \in 1..MaxP, bg \in BgKinds : FDChain(N, P, bg)
         \/ \E s \in Sizes, P \in 1..MaxP, bN \in Bases : FDHistory(s[1], s[2], P, bN)
-        \/ \E N \in NSizes, sc \in 0..3, ms \in 0..2, g \in GridKinds, bM \in Bases, bN \in Bases : MomentCell(N, sc, ms, g, bM, bN)
+        \/ \E N \in NSizes, sc \in 0..3, ms \in 0..2, g \in GridKinds, bM \in Bases, bN \in Bases, h \in GridHist : MomentCell(N, sc, ms, g, bM, bN, h)
         \/ Done
 Spec == Init /\ [][Next]_vars
 
